@@ -95,8 +95,20 @@ def assemble_recorded(source, *, compress=False, include_dirs=None, constants=No
         setattr(a, name, w)
 
     for n in PASSES:
-        if passes or n == 'resolve_blobs':
+        if (passes or n == 'resolve_blobs') and hasattr(a, n):
             wrap(n)
+    # second observation point, independent of the pass functions' names: every Blob ever constructed, regrouped in source-line
+    # order (within a line in creation order).  Used only if no function called resolve_blobs handed us the final list.
+    created = []
+    blob_cls = getattr(a, 'Blob', None)
+    orig_init = None
+    if blob_cls is not None and 'resolve_blobs' not in saved:
+        orig_init = blob_cls.__init__
+
+        def spy_init(self, line, data, *args, **kw):
+            orig_init(self, line, data, *args, **kw)
+            created.append(self)
+        blob_cls.__init__ = spy_init
     try:
         try:
             out = with_alarm(timeout, a.assemble, source, constants=constants, labels=labels,
@@ -117,6 +129,15 @@ def assemble_recorded(source, *, compress=False, include_dirs=None, constants=No
     finally:
         for n, f in saved.items():
             setattr(a, n, f)
+        if orig_init is not None:
+            blob_cls.__init__ = orig_init
+    if rec['chunks'] is None and orig_init is not None and rec.get('out') is not None:
+        # stable sort by (file order of first appearance, line number)
+        order = {}
+        for b in created:
+            order.setdefault(b.line.file, len(order))
+        created.sort(key=lambda b: (order[b.line.file], b.line.number))
+        rec['chunks'] = [[b.line.file, b.line.number, bytes(b.data)] for b in created]
     rec['labels'] = dict(labels)
     rec['constants'] = dict(constants)
     return rec
